@@ -615,6 +615,11 @@ def run_cover(ctx, case):
                   "is_covered raised outside the numerical band"
                   + (" (ε within 1e-3 relative of the exact covering distance)" if near else ""), case,
                   detail={"eps": eps, "dist2": str(d2), "expected": band})
+        elif bool(r[1]) != band and near:
+            # Within 1e-3 relative of the exact covering distance the decision belongs to the conic
+            # solver's own tolerance (the code falls back to SCS, eps ≈ 1e-4, when CLARABEL gives up on a
+            # marginally infeasible problem): counted, not a violation.  A *crash* there is still (R).
+            ctx.count("is_covered_wrong_within_solver_tolerance_info")
         elif bool(r[1]) != band:
             _viol(ctx, "is_covered-verdict" + sfx,
                   "is_covered disagrees with ∃ z ∈ C, ‖z‖ ≤ ε, vj + z ≽ vi (exact certified distance)"
